@@ -1019,7 +1019,10 @@ def instruction(ctx):
 
         operands.append(first_operand)
 
+        # Diagnostics about a comma point at the comma, not at the blanks or
+        # comments before it (the saved position is a copy of ctx)
         ctx_before_comma = ctx.save()
+        ctx_before_comma.skip_whitespace()
         while comma(ctx, maybe=True):
             ctx_after_comma = ctx.save()
             ctx.skip_whitespace()
@@ -1032,6 +1035,7 @@ def instruction(ctx):
             ))
             operands.append(oper)
             ctx_before_comma = ctx.save()
+            ctx_before_comma.skip_whitespace()
 
         ctx_opening_bracket = ctx.save()
         if opening_bracket(ctx, maybe=True):
